@@ -246,6 +246,7 @@ class Loader:
 
         current_server = self.servers[servername]
         has_apps = bool(current_server.apps)
+        placed_apps = list(current_server.apps)
 
         # Check if server is same
         try:
@@ -253,6 +254,7 @@ class Loader:
             if not data:
                 # The server is configured, but never reported it's capacity.
                 self.remove_server(servername)
+                self._delete_placements(servername, placed_apps)
                 return
 
             server = self.create_server(servername, data)
@@ -281,7 +283,13 @@ class Loader:
 
         except be.ObjectNotFoundError:
             self.remove_server(servername)
+            self._delete_placements(servername, placed_apps)
             _LOGGER.warning('Server node not found: %s', servername)
+
+    def _delete_placements(self, servername, appnames):
+        """The server is gone and its apps are pending: drop their placement."""
+        for appname in appnames:
+            self.backend.delete(z.path.placement(servername, appname))
 
     def create_server(self, servername, data):
         """Create a new server object from server data."""
